@@ -169,8 +169,8 @@ using namespace cocls;
 // ---- scenario state ----
 struct Rec;
 struct Act {
-    int what;   // 0 submit, 1 stop, 2 query, 3 co_await current()
-    long arg;   // query number
+    int what;   // 0 submit, 1 stop, 2 query, 3 co_await current(), 4 wait for another submission
+    long arg;   // query number / label waited for
     Rec *rec;   // submitted closure / hop continuation
 };
 struct Rec {
@@ -184,6 +184,7 @@ struct Rec {
 };
 
 static thread_pool *g_pool = nullptr;
+static std::vector<Rec *> *g_tops = nullptr;   // top-level submissions by label
 static long g_destroyed = 0;
 static thread_local Rec *t_pending = nullptr;  // submission whose enqueue() has not executed yet
 static thread_local int t_api = 0;             // > 0: the thread is inside a pool call made by the scenario (not in the worker loop)
@@ -270,6 +271,14 @@ static async<void> body_coro(Rec *r) {
             ApiScope api;
             bool res = a.arg == 0 ? thread_pool::current::is_stopped() : thread_pool::current::any_enqueued();
             vh::print_obs({100, (long)res, 10 + a.arg, (long)pctl::t_id, pool_locked()});
+        } else if (a.what == 4) {
+            // the job blocks (as if it waited on the other submission's future) until that submission ran or was cancelled
+            long lbl = a.arg;
+            pctl::yield(pctl::Blocked, 64, [lbl] {
+                if (lbl < 0 || lbl >= (long)g_tops->size()) return false;
+                Rec *t = (*g_tops)[lbl];
+                return t->ran + t->canc > 0;
+            });
         } else {
             Rec *hr = a.rec;   // its body is the rest of this body: the loop simply goes on after the hop
             coro_queue::instance = saved;
@@ -415,8 +424,9 @@ static void run_case(const vh::Case &cs) {
     long n = 1;
     int maxcl = 0;
     struct Op {
-        int what;   // 2 submit, 3 stop, 4 worker()
+        int what;   // 2 submit, 3 stop, 4 worker(), 5 wait for a submission
         Rec *rec;
+        long arg = 0;
     };
     std::vector<Op> progs[3];
     std::vector<std::unique_ptr<Rec>> recs;   // every record, owned
@@ -437,13 +447,13 @@ static void run_case(const vh::Case &cs) {
         } else if (op[0] == 2 && op.size() >= 3) {
             long cl = op[1], k = op[2];
             if (!kind_ok(k)) continue;
-            // body: 0..5 submit, 6 stop (last), 7/8 query, 9 co_await current(); at most 6 actions
+            // body: 0..5 submit, 6 stop (last), 7/8 query, 9 co_await current(), 10+j wait for submission j; at most 6 actions
             bool ok = true;
             size_t na = op.size() - 3;
             if (na > 6) ok = false;
             for (size_t i = 0; ok && i < na; i++) {
                 long z = op[3 + i];
-                if (z < 0 || z > 9) ok = false;
+                if (z < 0 || z > 49) ok = false;
                 if (z == 6 && i + 1 != na) ok = false;
             }
             if (!ok) continue;
@@ -456,13 +466,20 @@ static void run_case(const vh::Case &cs) {
                 if (z <= 5) r->body.push_back({0, 0, new_rec(lbl, z)});
                 else if (z == 6) r->body.push_back({1, 0, nullptr});
                 else if (z == 7 || z == 8) r->body.push_back({2, z - 7, nullptr});
-                else r->body.push_back({3, 0, new_rec(lbl, 0)});
+                else if (z == 9) r->body.push_back({3, 0, new_rec(lbl, 0)});
+                else r->body.push_back({4, z - 10, nullptr});
             }
             // a hop continuation's body is the rest of the body it interrupts
             for (size_t i = 0; i < r->body.size(); i++)
                 if (r->body[i].what == 3) r->body[i].rec->body.assign(r->body.begin() + i + 1, r->body.end());
             progs[cl].push_back({2, r});
             tops.push_back(r);
+            maxcl = std::max<int>(maxcl, (int)cl);
+        } else if (op[0] == 5 && op.size() == 3) {
+            long cl = op[1], l = op[2];
+            if (cl < 0 || cl > 2 || l < 0 || l >= 40 || nk >= 30) continue;
+            nk++;
+            progs[cl].push_back({5, nullptr, l});
             maxcl = std::max<int>(maxcl, (int)cl);
         } else if ((op[0] == 3 || op[0] == 4) && op.size() == 2) {
             long cl = op[1];
@@ -476,6 +493,7 @@ static void run_case(const vh::Case &cs) {
     }
     int m = maxcl + 1;
     int total = m + (int)n;
+    g_tops = &tops;
 
     // ---- set up ----
     g_destroyed = 0;
@@ -492,6 +510,12 @@ static void run_case(const vh::Case &cs) {
                 else if (o.what == 3) {
                     ApiScope api;
                     g_pool->stop();
+                } else if (o.what == 5) {
+                    long lbl = o.arg;
+                    pctl::yield(pctl::Blocked, 64, [lbl, &tops] {
+                        if (lbl >= (long)tops.size()) return false;
+                        return tops[lbl]->ran + tops[lbl]->canc > 0;
+                    });
                 } else g_pool->worker();
             }
             if (i == 0) {
